@@ -39,7 +39,9 @@ func Parse(pattern string, desc bool) *Glob {
 		g.IsGlob = false
 		return g
 	}
-	n := 0
+	// The literal prefix of the pattern, with escapes resolved: every match
+	// starts with it, so it bounds the range that needs to be scanned.
+	var prefix []byte
 	isGlob := false
 outer:
 	for i := 0; i < len(pattern); i++ {
@@ -50,17 +52,23 @@ outer:
 				isGlob = true
 			}
 			break outer
+		case '\\':
+			if i+1 == len(pattern) {
+				break outer
+			}
+			i++
 		}
-		n++
+		prefix = append(prefix, pattern[i])
 	}
+	n := len(prefix)
 	if n == 0 {
-		g.Limits = []string{pattern, pattern}
-		g.IsGlob = false
+		// the pattern starts with a wildcard: no literal prefix, no limits
+		g.IsGlob = isGlob
 		return g
 	}
 	var a, b string
 	if desc {
-		a = pattern[:n]
+		a = string(prefix)
 		b = a
 		if b[n-1] == 0x00 {
 			for len(b) > 0 && b[len(b)-1] == 0x00 {
@@ -83,7 +91,7 @@ outer:
 			a = string(append([]byte(a[:n-1]), a[n-1]+1))
 		}
 	} else {
-		a = pattern[:n]
+		a = string(prefix)
 		if a[n-1] == 0xFF {
 			b = string(append([]byte(a), 0x00))
 		} else {
